@@ -150,6 +150,14 @@ theorem invalidate_moves_to_best_partial (ops : List Op) (h : Hash) (c : Option 
     IsBestEx (delivered ops) [h] (run (ops ++ [.invalidate h c])).tip :=
   (invalidate_inactive_isBestEx ops h c hdo hwf hev hna).2
 
+/-- `_partial`, second half: after any delivery history, invalidating a (non-genesis) block of the
+active chain always takes that block off the active chain — the new tip's chain excludes it — whatever
+becomes of the attempt to activate another tip. Missing: that the new tip is the BEST such chain. -/
+theorem invalidate_excludes_partial (ops : List Op) (h : Hash) (c : Option Hash) (hdo : deliveryOnly ops)
+    (hwf : WF (mentioned ops)) (hb : (run ops).best.contains h = true) (h0 : h ≠ 0) :
+    (run (ops ++ [.invalidate h c])).best.contains h = false :=
+  run_invalidate_excludes ops h c hdo hwf hb h0
+
 def vb (i p : Nat) : BlockAbs := ⟨i, p, 1, true, true, true, true⟩
 
 /-- F-C02-a: G–A1..A5 active, C3–C4 off A2, D1–D3 off genesis; invalidate A1 -/
